@@ -173,11 +173,17 @@ class TlsWorld(World):
         return {str(k): v for (k, v) in dict(res[1]).items()} if res[0] == 'ok' else res
 
 
-def run_exchange(world, peer_can_tls, peer_flags=None, node_id=None, one_read=False):
+def run_exchange(world, peer_can_tls, peer_flags=None, node_id=None, one_read=False, header_cut=None):
     '''The scripted peer plays a correct TCPCL peer (peer_flags: the whole flags octet of its
-    contact header, reserved bits included; node_id: what its SESS_INIT announces).'''
+    contact header, reserved bits included; node_id: what its SESS_INIT announces; header_cut: its
+    contact header arrives in two reads, cut after that many octets).'''
     world.quiesce()
-    world.peer_write(T.enc_contact(peer_flags if peer_flags is not None else (1 if peer_can_tls else 0)))
+    head = T.enc_contact(peer_flags if peer_flags is not None else (1 if peer_can_tls else 0))
+    if header_cut:
+        world.peer_write(head[:header_cut])
+        world.quiesce()
+        head = head[header_cut:]
+    world.peer_write(head)
     if not one_read:
         world.quiesce()
     # (one_read: the peer's SESS_INIT is already there when the endpoint reads the contact header)
@@ -210,14 +216,16 @@ def run_table1(params, known):
         v['case'] = row
         violations.append(v)
     # the peer's flags octet: CAN_TLS is bit 0, the other bits are reserved and must be ignored
-    for (tls_enable, peer_flags, require, role, hs_ok, one_read) in itertools.product(
-            (True, False), (0x00, 0x01, 0x03, 0x81, 0xFE, 0xFF), (None, True, False), ('active', 'passive'), (True, False), (False, True)):
+    for (tls_enable, peer_flags, require, role, hs_ok, one_read, cut) in itertools.product(
+            (True, False), (0x00, 0x01, 0x03, 0x81, 0xFE, 0xFF), (None, True, False), ('active', 'passive'), (True, False), (False, True), (None, 1, 5)):
         count += 1
         peer_can = bool(peer_flags & 1)
         row = dict(tls_enable=tls_enable, peer_can_tls=peer_can, peer_flags=peer_flags, require_tls=require, role=role, handshake_ok=hs_ok,
                    sess_init_in_the_same_read=one_read)
+        if cut:
+            row['contact_header_cut_after'] = cut
         world = TlsWorld(role, tls_enable, require, False, False, False, hs_ok, make_cert(()))
-        obs = run_exchange(world, peer_can, peer_flags=peer_flags, one_read=one_read)
+        obs = run_exchange(world, peer_can, peer_flags=peer_flags, one_read=one_read, header_cut=cut)
         if world.escaped:
             viol('exception-escaped-callback', dict(exc=world.escaped[-1][0]), '%s: %s' % world.escaped[-1][:2], row)
             continue
@@ -677,7 +685,7 @@ ASSUMPTIONS = [
     'a TLS client that presents no certificate at all (the context asks for one but does not require it): 16 more rows of table 2, passive role',
 ]
 
-RULE = ('complete decision tables (296 + 3600 rows) executed on a fresh real endpoint each; non-trivial = rows in which the '
+RULE = ('complete decision tables (872 + 3600 rows; table 1 also with the contact header of the peer arriving in two reads, cut after 1 or 5 octets) executed on a fresh real endpoint each; non-trivial = rows in which the '
         'policy forbids the session (table 2) or allows it (table 1)')
 
 
